@@ -42,7 +42,18 @@ let parse_op (op : string) : sop =
 
 let strm side f =
   match side with
-  | `Spec -> "N/A"
+  | `Spec ->
+      (* a stripping stream over an accept-all Vec / File fed by write_all / write_fmt / write (a Vec takes every
+         write whole): what arrives is Spec/Strip of everything handed over, whatever the chunking.  Answered as
+         "MERGED <hex>": compared with the delivered-bytes field by the properties' observe hooks *)
+      let mode = List.nth f 0 and wkind = List.nth f 1 in
+      let strips = (mode = "strip" || mode = "never" || mode = "auto-never") in
+      let ops = if List.nth f 3 = "-" then [] else List.map parse_op (String.split_on_char ',' (List.nth f 3)) in
+      let simple = List.for_all (function OWriteAll _ | OWrite _ | OWriteFmt _ | OFlush -> true | _ -> false) ops in
+      if strips && (wkind = "vec" || wkind = "file") && simple then
+        let data = List.concat (List.map (function OWriteAll b | OWrite b -> b | OWriteFmt fs -> List.concat fs | _ -> []) ops) in
+        "MERGED " ^ hexo (spec_strip data)
+      else "N/A"
   | `Model ->
       let mode = List.nth f 0 and wkind = List.nth f 1 in
       (* boxed / send / sync: scripted writer behind Box<dyn Write [+ Send [+ Sync]]>; vec / file write every
